@@ -457,6 +457,93 @@ fn respell_position_cases(r: &mut Rng, count: usize) -> Vec<Case> {
     out
 }
 
+/// Twin models in which a coefficient is spelled as a DIVISION by a constant with |d| != 1 (`x / 4`, `x / (2 + 2)`,
+/// `x / -2`, `abs{x} / 2`, `max{x, y} / 4 + y`) in one twin and as the reciprocal scale (`0.25 * x`, `x * 0.25`,
+/// `(1 / 4) * x`) in the other, inside the abs/min/max block of a bound-giving constraint, on variables without a
+/// declared finite range — so the range the bound inference derives through the `Div` arm of its reverse
+/// propagation (`tighten_expression`) is what the exact lowering of `abs{x} >= 1` needs.  Own forked random stream
+/// and a fixed number of twins, so that detection does not depend on what the other streams consumed.
+/// Compared on the implementation: inferred ranges + published domains, acceptance / error kind, rows.
+fn respell_division_cases(seed: u64, count: usize) -> Vec<Case> {
+    use rooc::{Comparison, OptimizationType, VariableType};
+    let mut r = Rng::new(seed ^ 0x00C1_0D17_5EED);
+    let r = &mut r;
+    let num = |v: f64| Exp::Number(v);
+    let var = |n: &str| Exp::Variable(n.into());
+    let bx = |op: BinOp, l: Exp, rr: Exp| Exp::BinOp(op, Box::new(l), Box::new(rr));
+    let ds = vec![
+        gen_model::VarDecl { name: "x".into(), ty: VariableType::Real(f64::NEG_INFINITY, f64::INFINITY) },
+        gen_model::VarDecl { name: "y".into(), ty: VariableType::Real(f64::NEG_INFINITY, f64::INFINITY) },
+    ];
+    let mut out = vec![];
+    for i in 0..count {
+        let d = [4.0, 2.0, -2.0, -4.0, 8.0, -8.0][i % 6];
+        let k = 1.0 / d; // exact: d is a power of two
+        let template = (i / 6) % 5;
+        // how the divisor / the scale are written
+        let divisor = || if r_chance(i, 3) { if d > 0.0 { bx(BinOp::Add, num(d / 2.0), num(d / 2.0)) } else { bx(BinOp::Sub, num(0.0), num(-d)) } } else { num(d) };
+        let scale = |e: Exp, how: usize| match how % 3 { 0 => bx(BinOp::Mul, num(k), e), 1 => bx(BinOp::Mul, e, num(k)), _ => bx(BinOp::Mul, bx(BinOp::Div, num(1.0), num(d)), e) };
+        let how = r.below(3) as usize;
+        let b = 3.0 + r.below(4) as f64;
+        let le = |l: Exp, rr: Exp| Constraint::new(l, Comparison::LessOrEqual, rr, String::new());
+        let ge = |l: Exp, rr: Exp| Constraint::new(l, Comparison::GreaterOrEqual, rr, String::new());
+        // `q` is the spelled quotient term: built once with the division, once with the scale
+        let mk = |q: &dyn Fn(Exp) -> Exp| -> Model {
+            let needs = ge(Exp::Abs(Box::new(var("x"))), num(1.0));
+            let cons = match template {
+                0 => vec![le(Exp::Abs(Box::new(q(var("x")))), num(b)), needs],
+                1 => vec![le(Exp::Max(vec![q(var("x")), var("y")]), num(b)),
+                          if k > 0.0 { ge(var("x"), num(-7.0)) } else { le(var("x"), num(7.0)) }, needs],
+                2 => vec![ge(Exp::Min(vec![q(var("x")), var("y")]), num(-b)),
+                          if k > 0.0 { le(var("x"), num(7.0)) } else { ge(var("x"), num(-7.0)) }, needs],
+                3 => if k > 0.0 { vec![le(q(Exp::Abs(Box::new(var("x")))), num(b)), needs] }
+                     else { vec![ge(q(Exp::Abs(Box::new(var("x")))), num(-b)), needs] },
+                _ => if k > 0.0 { vec![le(bx(BinOp::Add, q(Exp::Max(vec![var("x"), var("y")])), var("y")), num(b)), ge(var("y"), num(1.0)), ge(var("x"), num(-7.0)), needs] }
+                     else { vec![ge(bx(BinOp::Add, q(Exp::Max(vec![var("x"), var("y")])), var("y")), num(-b)), le(var("y"), num(1.0)), ge(var("y"), num(-5.0)), ge(var("x"), num(-7.0)), needs] },
+            };
+            gen_model::build(OptimizationType::Max, var("x"), cons, &ds)
+        };
+        let dv = divisor();
+        let m1 = mk(&|e: Exp| scale(e, how));
+        let m2 = mk(&|e: Exp| bx(BinOp::Div, e, dv.clone()));
+        let (a, bb) = (Linearizer::linearize(m1.clone()), Linearizer::linearize(m2.clone()));
+        let (b1, b2) = (crate::props::c01::bounds_sx(&m1), crate::props::c01::bounds_sx(&m2));
+        let mut c = Case::default();
+        c.show = format!("{}  ~~scale respelled as division~~>  {}", format!("{}", m1).replace('\n', " ; "), format!("{}", m2).replace('\n', " ; "));
+        c.tags = vec!["respell".into(), "respell-division".into(), format!("respell-division-template-{}", template)];
+        c.nontrivial = true;
+        let err = |e: &rooc::LinearizationError| crate::props::c01::lin_error(e);
+        if b1 != b2 {
+            c.imp = "(bounds-differ)".into();
+            c.sig = Some("respelling-changes-bounds".into());
+            c.impl_violation = Some(format!("a coefficient spelled `e / d` vs `(1/d) * e` inside a bound-giving block: inferred ranges / published domains differ: {} {}  vs  {} {}", b1.0, b1.1, b2.0, b2.1));
+        } else {
+            match (&a, &bb) {
+                (Ok(la), Ok(lb)) => {
+                    c.imp = "(both-compile)".into();
+                    if sx::lin_model(la) == sx::lin_model(lb) { c.tags.push("respell-identical-output".into()); }
+                    else {
+                        // `e / d` and `(1/d) * e` are equal in value but not identical after `normalize`: the rows are
+                        // compared semantically
+                        c.tags.push("respell-different-output".into());
+                        c.oracle = format!("py:{} {} {}", if i % 2 == 0 { "c01" } else { "c02" }, sx::model(&m1), sx::lin_model(lb));
+                    }
+                }
+                (Err(x), Err(y)) if err(x) == err(y) => { c.imp = format!("(both-rejected {})", err(x)); c.tags.push("respell-both-rejected".into()); }
+                (x, y) => {
+                    c.imp = format!("(acceptance-differs {} {})", x.is_ok(), y.is_ok());
+                    c.sig = Some("respelling-changes-acceptance".into());
+                    let e = |z: &Result<rooc::LinearModel, rooc::LinearizationError>| z.as_ref().err().map(|e| err(e)).unwrap_or("(ok)".into());
+                    c.impl_violation = Some(format!("a coefficient spelled `e / d` vs `(1/d) * e`: {} vs {}", e(x), e(y)));
+                }
+            }
+        }
+        out.push(c);
+    }
+    out
+}
+fn r_chance(i: usize, m: usize) -> bool { i % m == 1 }
+
 pub fn generate(seed: u64, n: usize, thorough: bool, _corpus: Option<&str>) -> Vec<Case> {
     let mut r = Rng::new(seed);
     let mut cases = vec![];
@@ -546,5 +633,6 @@ pub fn generate(seed: u64, n: usize, thorough: bool, _corpus: Option<&str>) -> V
     }
     cases.extend(respell_block_cases(&mut r, if thorough { 600 } else { 60 }));
     cases.extend(respell_position_cases(&mut r, if thorough { 1600 } else { 160 }));
+    cases.extend(respell_division_cases(seed, if thorough { 600 } else { 60 }));
     cases
 }
